@@ -61,6 +61,35 @@ type result struct {
 	EventHash string   `json:"event_hash"`
 }
 
+// lenientTruncate: leave views out of the byte comparison once their original was truncated (set by the
+// driver while the known finding about the copying Truncate is open).
+var lenientTruncate bool
+
+// probeTruncateDetachesViews is the fixed scenario behind that finding: a view taken before a Truncate of
+// its original must go on aliasing it.
+func probeTruncateDetachesViews() *result {
+	res := &result{}
+	b := idbblob.FromBlob(blob.NewBytes([]byte("0123456789")))
+	v, err := blob.View(b, 2, 8)
+	if err != nil {
+		res.Kind, res.Signature, res.Detail = "error", "C19:idbblob:probe-error", err.Error()
+		return res
+	}
+	if err := blob.Truncate(b, 5); err != nil {
+		res.Kind, res.Signature, res.Detail = "error", "C19:idbblob:probe-error", err.Error()
+		return res
+	}
+	if _, err := blob.Set(b, blob.NewBytes([]byte("XY")), 2); err != nil {
+		res.Kind, res.Signature, res.Detail = "error", "C19:idbblob:probe-error", err.Error()
+		return res
+	}
+	if got := string(v.Bytes()); got != "XY4567" {
+		res.Kind, res.Signature = "bytes", "C19:idbblob:Truncate:views-detached"
+		res.Detail = fmt.Sprintf("b=\"0123456789\"; v=View(b,2,8); Truncate(b,5); Set(b,\"XY\",2): v.Bytes() = %q, a []byte model gives \"XY4567\" (b.Bytes() = %q)", got, string(b.Bytes()))
+	}
+	return res
+}
+
 func runOne(c *choice.Stream, trial, seed uint64) *result {
 	r := &rep{evh: 14695981039346656037}
 	func() {
@@ -71,9 +100,9 @@ func runOne(c *choice.Stream, trial, seed uint64) *result {
 				}
 			}
 		}()
-		blobmodel.Run(c, r, "idbblob", func(data []byte) blob.Blob {
+		blobmodel.RunOpt(c, r, "idbblob", func(data []byte) blob.Blob {
 			return idbblob.FromBlob(blob.NewBytes(append([]byte(nil), data...)))
-		}, false, false)
+		}, false, false, lenientTruncate)
 	}()
 	res := &result{Trial: trial, Seed: seed, Kind: r.kind, Signature: r.sig, Detail: r.det, EventHash: fmt.Sprintf("%016x/%d", r.evh, r.evn)}
 	if r.sig != "" {
@@ -89,8 +118,20 @@ func main() {
 	to := flag.Uint64("to", 100, "one past the last trial")
 	replay := flag.String("replay", "", "comma separated choices")
 	hashes := flag.Bool("hashes", false, "print every trial's event hash")
+	probe := flag.String("probe", "", "run a fixed scenario instead of the search")
+	flag.BoolVar(&lenientTruncate, "lenient-truncate", false, "do not compare views after a Truncate of their original")
 	flag.Parse()
 	enc := json.NewEncoder(os.Stdout)
+	if *probe != "" {
+		switch *probe {
+		case "truncate-detaches-views":
+			enc.Encode(probeTruncateDetachesViews())
+		default:
+			fmt.Fprintln(os.Stderr, "unknown probe", *probe)
+			os.Exit(2)
+		}
+		return
+	}
 	if *replay != "" || flag.NArg() > 0 && flag.Arg(0) == "replay-empty" {
 		var rec []uint32
 		for _, f := range strings.Split(*replay, ",") {
